@@ -275,6 +275,22 @@ def run_schedule(world, case, check_serial=False):
 
 
 
+def _fn(k, parent, name, cond=""):
+    return {"k": k, "parent": parent, "name": name, "alias": "", "cond": cond, "args": [], "dirs": [], "vdefs": [], "optype": "query" if k == "OP" else "", "ptype": ""}
+
+
+FOREIGN_NODES = [_fn("OP", 0, "X"), _fn("F", 1, "o"), _fn("S", 2, "F1"), _fn("S", 2, "F2"),
+                 _fn("FRAG", 0, "F1", "T"), _fn("F", 5, "d"), _fn("FRAG", 0, "F2", "T"), _fn("F", 7, "i")]
+FOREIGN_CASE = {"nodes": FOREIGN_NODES, "op": 1, "given": [], "overlay": [],
+                "calls": [{"path": ["o"], "parent": "", "args": [], "ret": {"r": "obj", "id": "o", "tn": "T", "d": "o.d"}},
+                          {"path": ["o", "i"], "parent": "o", "args": [], "ret": {"r": "leaf", "v": {"t": "I", "v": 7}}}]}
+FOREIGN_EXPECTED = {"data": {"o": {"d": "o.d", "i": 7}}}
+
+
+def foreign_request(world, cfg):
+    return GatedRun(world, FOREIGN_CASE, cfg)
+
+
 def as_single(multi, i):
     """request i of a multi case as a plain exec case"""
     r = multi["reqs"][i]
@@ -290,6 +306,12 @@ def run_multi(world, multi):
     out = []
     cfg = {"list_conc": bool(multi["lconc"]), "seq_fields": tuple(sorted(multi["seq"]))}
     cases = [as_single(multi, i) for i in range(len(multi["reqs"]))]
+    # a companion request with ANOTHER document that reuses the fragment names F1 / F2 with other bodies is in flight
+    # during the whole interleaving (started first, released last); it must answer what it answers alone
+    foreign = None
+    if any(n["k"] == "FRAG" for n in multi["nodes"]):
+        foreign = foreign_request(world, cfg)
+        foreign.start()
     runs = [GatedRun(world, c, cfg) for c in cases]
     for g in runs:
         g.start()
@@ -317,6 +339,17 @@ def run_multi(world, multi):
                     g.task.cancel()
             main_loop().idle()
             return out, deviations
+    if foreign is not None:
+        guard = 0
+        while not foreign.done() and guard < 50:
+            pend = foreign.pending()
+            if not pend:
+                break
+            foreign.release(sorted(pend)[0])
+            guard += 1
+        got = foreign.result() if foreign.done() else {"__raised__": "companion request did not finish"}
+        if got != FOREIGN_EXPECTED:
+            out.append("companion request (another document reusing the fragment names) answered %r, alone it answers %r" % (got, FOREIGN_EXPECTED))
     for i, g in enumerate(runs):
         resp = g.result()
         mm = compare_faults(cases[i], resp, g.cs, g.doc)
